@@ -1,6 +1,20 @@
 # Per-property configuration of the correspondence streams: (name, generator, cases in quick tier, cases in thorough tier)
 import gens as G
 
+# constant tables re-proved (closed forms, coq/tables) by the checks of the properties whose routines index them
+T_COMMON = ['BID_NR_DIGITS', 'BID_TEN2K64', 'BID_TEN2K128', 'BID_TEN2K256', 'BID_MIDPOINT64', 'BID_MIDPOINT128', 'BID_MIDPOINT192', 'BID_MIDPOINT256',
+            'BID_TEN2MK128', 'BID_SHIFTRIGHT128', 'BID_MASKHIGH128', 'BID_ONEHALF128', 'BID_TEN2MK128TRUNC', 'BID_ROUND_CONST_TABLE_128',
+            'BID_RECIPROCALS10_128', 'BID_RECIP_SCALE', 'BID_ESTIMATE_DECIMAL_DIGITS', 'BID_POWER10_INDEX_BINEXP_128', 'BID_POWER10_TABLE_128']
+T_DIV = ['BID_RECIPROCALS10_64', 'BID_SHORT_RECIP_SCALE', 'BID_FACTORS', 'BID_PACKED_10000_ZEROS', 'BID_CONVERT_TABLE']
+T_FMA = [f % w for w in ('64', '128', '192', '256') for f in ('BID_KX%s', 'BID_HALF%s', 'BID_MASK%s', 'BID_TEN2MXTRUNC%s')] + \
+        ['BID_EX64M64', 'BID_EX128M128', 'BID_EX192M192', 'BID_EX256M256']
+T_STR = ['MOD10_18_TBL', 'BID_MIDI_TBL', 'BID_CHAR_TABLE2', 'BID_CHAR_TABLE3', 'BID_TWOTO60_M_10TO18', 'BID_TWOTO60', 'BID_INV_TENTO9', 'BID_TWOTO30_M_10TO9',
+         'BID_TENTO9', 'BID_TENTO6', 'BID_TENTO3']
+T_BIN = ['BID_POWER_FIVE', 'BID_COEFFLIMITS_BID128', 'BID_INNERTABLE_SIG', 'BID_INNERTABLE_EXP', 'BID_OUTERTABLE_SIG', 'BID_OUTERTABLE_EXP', 'BID_ROUNDBOUND_128']
+T_DPD = ['BID_B2D', 'BID_D2B']
+TABLES = {'C01': T_COMMON + T_DIV, 'C02': T_COMMON + T_FMA, 'C04': T_COMMON, 'C05': T_STR, 'C06': T_COMMON, 'C07': T_BIN, 'C08': T_COMMON, 'C09': T_COMMON,
+          'C10': T_COMMON, 'C11': T_COMMON, 'C17': T_COMMON, 'C19': T_DPD}
+
 PROPS = {
     'C01': dict(streams=[('addsub', G.gen_addsub, 60000, 1500000), ('mul', G.gen_mul, 40000, 800000),
                          ('div', G.gen_div, 40000, 800000), ('sqrt', G.gen_sqrt, 20000, 400000),
@@ -28,3 +42,5 @@ PROPS = {
     'C19': dict(streams=[('dpd', G.gen_dpd, 120000, 2000000)]),
     'C20': dict(streams=[('ops', G.gen_ops, 60000, 1000000), ('hash', G.gen_hash, 60000, 1000000)]),
 }
+
+for _k, _v in TABLES.items(): PROPS[_k]['tables'] = _v
